@@ -409,7 +409,8 @@ EbErrorType dec_system_resource_init(EbDecHandle *dec_handle_ptr, TilesInfo *til
             dec_handle_ptr->thread_ctxt_pa[i].dec_mod_ctxt = dec_mod_ctxt_arr[i];
         }
     }
-    free(dec_mod_ctxt_arr);
+    /* dec_mod_ctxt_arr was registered in the decoder memory map by EB_MALLOC_DEC above:
+       svt_av1_dec_deinit() releases it; freeing it here as well made deinit free it twice */
     return return_error;
 }
 
